@@ -12,7 +12,7 @@ const DIMS: &[(&str, usize)] = &[
     ("end", 3),
     ("head", 3),
     ("recv", 2),
-    ("cancel", 5),
+    ("cancel", 6),
     ("send-buffer", 2),
     ("max-concurrent", 2),
     ("push", 2),
@@ -125,7 +125,8 @@ pub fn scenario_of(row: &[usize]) -> Scenario {
         1 => Cancel::ClientReset { after_chunks: 1, code: 8 },
         2 => Cancel::ServerReset { after_chunks: 1, code: 2 },
         3 => Cancel::ClientDrop { after_chunks: 0 },
-        _ => Cancel::ServerDrop,
+        4 => Cancel::ServerDrop,
+        _ => Cancel::ServerEarlyResponse,
     };
     let push = if row[10] == 1 { Some(MsgSpec::simple(&[3])) } else { None };
     let mut streams = vec![StreamSpec { push, c_recv: recv.clone(), s_recv: recv, cancel, ..StreamSpec::new(req, resp) }];
